@@ -757,12 +757,28 @@ fn packet_checks(ctx: &mut Ctx, p: &Packet, wire: Option<(&[u8], bool, &[u8])>, 
     if wire.map(|w| w.1).unwrap_or(true) {
         if let pgp::types::PacketLength::Fixed(n) = p.packet_header().packet_length() {
             let mut body = vec![];
-            if body_of(p, &mut body).is_ok() && n as usize != body.len() {
+            let body_ok = body_of(p, &mut body).is_ok();
+            if body_ok && n as usize != body.len() {
                 ctx.violation(
                     format!("C05/stored-header-length-stale/{label}"),
                     format!("packet_header() of the object announces a body of {n} octets, {} are written", body.len()),
                     replay.clone(),
                 );
+            } else if body_ok {
+                // the header octets themselves (format, length type) must announce that body
+                let mut hb = vec![];
+                if p.packet_header().to_writer(&mut hb).is_ok() {
+                    let mut framed = hb.clone();
+                    framed.extend_from_slice(&body);
+                    let good = matches!(deframe(&framed), Ok(d) if d.len() == 1 && d[0].encoded_len == framed.len() && d[0].body == body);
+                    if !good {
+                        ctx.violation(
+                            format!("C05/stored-header-octets-wrong/{label}"),
+                            format!("packet_header() of the object serialises to {} which does not announce the {}-octet body that is written", hexs(&hb), body.len()),
+                            replay.clone(),
+                        );
+                    }
+                }
             }
         }
     }
@@ -1068,6 +1084,34 @@ pub fn run(ctx: &mut Ctx) {
                         }
                     }
                     Err(e) => ctx.violation("C05/composite-own-output-rejected/locked", e.to_string(), replay.clone()),
+                }
+            }
+            // the same mutation on a key packet that arrived in old-format framing (body lengths cross the
+            // 1-octet / 2-octet length types when the protection is added or removed)
+            if let Ok(plain_body) = key.primary_key.to_bytes() {
+                let form = if plain_body.len() < 256 { LenForm::Old1 } else { LenForm::Old2 };
+                if let Some(wire) = frame(5, &plain_body, &form) {
+                    if let Some(Ok(Packet::SecretKey(mut ko))) = PacketParser::new(&wire[..]).next() {
+                        if ko.set_password_with_s2k(&pw, s2k.clone()).is_ok() {
+                            packet_checks(ctx, &Packet::SecretKey(ko.clone()), None, &format!("api-locked-oldfmt-{si}"), &replay);
+                            if ko.remove_password(&pw).is_ok() {
+                                packet_checks(ctx, &Packet::SecretKey(ko.clone()), None, "api-unlocked-again-oldfmt", &replay);
+                            }
+                        }
+                    }
+                }
+            }
+            for sub in key.secret_subkeys.iter() {
+                let Ok(plain_body) = sub.key.to_bytes() else { continue };
+                let form = if plain_body.len() < 256 { LenForm::Old1 } else { LenForm::Old2 };
+                let Some(wire) = frame(7, &plain_body, &form) else { continue };
+                if let Some(Ok(Packet::SecretSubkey(mut ko))) = PacketParser::new(&wire[..]).next() {
+                    if ko.set_password_with_s2k(&pw, s2k.clone()).is_ok() {
+                        packet_checks(ctx, &Packet::SecretSubkey(ko.clone()), None, &format!("api-locked-oldfmt-sub-{si}"), &replay);
+                        if ko.remove_password(&pw).is_ok() {
+                            packet_checks(ctx, &Packet::SecretSubkey(ko.clone()), None, "api-unlocked-again-oldfmt-sub", &replay);
+                        }
+                    }
                 }
             }
             // unlock again
